@@ -164,12 +164,16 @@ class Path:
         self.cur_func = None
         self.cur_contract = None
         self.assume_log = []
+        self.free_bools = set()     # fresh Bool constants that do not occur in the path condition yet
 
     # -- basic services -----------------------------------------------------
     def fresh(self, name, sort):
         n = self.counter.get(name, 0)
         self.counter[name] = n + 1
-        return z3.Const(f"{name}!{n}" if n else name, sort)
+        cst = z3.Const(f"{name}!{n}" if n else name, sort)
+        if sort == B:
+            self.free_bools.add(cst.get_id())
+        return cst
 
     def alloc(self, hobj):
         rid = self.next_ref
@@ -214,13 +218,26 @@ class Path:
             return False
         if self.pure:
             raise Unsupported("branch inside pure contract expression")
+        if getattr(self, "merging", 0):
+            # inside a merge attempt only branches decided by the path condition are allowed
+            if self.entails(c):
+                return True
+            if self.entails(z3.Not(c)):
+                return False
+            from .interp import MergeAbort
+            raise MergeAbort()
         if self.dpos < len(self.decisions):
             d = self.decisions[self.dpos]
             self.dpos += 1
+            self.free_bools.discard(c.get_id())
             self.assume(c if d else z3.Not(c))
             return d
-        t = self.feasible(c)
-        f = self.feasible(z3.Not(c))
+        if z3.is_const(c) and c.get_id() in self.free_bools:
+            self.free_bools.discard(c.get_id())
+            t = f = True            # an unconstrained fresh Boolean: both outcomes are feasible
+        else:
+            t = self.feasible(c)
+            f = self.feasible(z3.Not(c))
         if t and f:
             self.pending.append(self.decisions + [False])
             d = True
@@ -347,10 +364,14 @@ class Path:
             c = z3.simplify(test(t))
             if z3.is_false(c):
                 continue
-            if z3.is_true(c) or self.entails(c):
+            if z3.is_true(c) or (not self.pure and self.entails(c)):
                 return self._unbox_as(name, t)
         if self.pure:
-            raise Unsupported(f"type of boxed value not determined in contract expression: {t}")
+            if want in (None, "dict"):
+                # contract expressions read an undetermined boxed container as a dict (total accessor reading);
+                # clauses guard such reads with is_dict(...)
+                return self.alloc(HDict(sym=(PV.dkeys(t), PV.dhas(t), PV.dmap(t))))
+            return self._unbox_as(want, t)
         for name, test in order:
             if self.branch(test(t)):
                 return self._unbox_as(name, t)
@@ -424,6 +445,25 @@ class Path:
         return VBox(h.seq[idx])
 
     # -- dicts --------------------------------------------------------------------
+    def entry_parts(self, h, k, e):
+        """(present: Bool term, value: PV term or None) of override entry e for constant key k"""
+        kt = key_of_const(k)
+        if e is DELETED:
+            return z3.BoolVal(False), None
+        if e is MISSING:
+            if h.sym is None:
+                return z3.BoolVal(False), None
+            return z3.Select(h.sym[1], kt), z3.Select(h.sym[2], kt)
+        if isinstance(e, Cond):
+            pres, val = z3.BoolVal(False), None
+            for cond, leaf in reversed(e.leaves()):
+                lp, lv = self.entry_parts(h, k, leaf)
+                pres = z3.If(cond, lp, pres)
+                if lv is not None:
+                    val = lv if val is None else z3.If(cond, lv, val)
+            return z3.simplify(pres), val
+        return z3.BoolVal(True), self.box(e)
+
     def dict_term(self, h):
         if h.sym is None:
             keys = []
@@ -432,23 +472,31 @@ class Path:
             for k, v in h.over.items():
                 if v is DELETED:
                     continue
+                if isinstance(v, Cond):
+                    raise Unsupported("conditional entry in a concrete dict")
                 kt = key_of_const(k)
                 keys.append(kt)
                 has = z3.Store(has, kt, True)
                 mp = z3.Store(mp, kt, self.box(v))
             return PV.PDict(seq_of(keys, KEYSEQ), has, mp)
         keys, has, mp = h.sym
-        new_keys = []
         for k, v in h.over.items():
             kt = key_of_const(k)
-            if v is DELETED:
+            self.assume(z3.Select(h.sym[1], kt) == self.engine.uf("key_in", KEYSEQ, KEY, B)(h.sym[0], kt))
+            pres, val = self.entry_parts(h, k, v)
+            if z3.is_false(pres):
                 has = z3.Store(has, kt, False)
                 keys = self.keys_remove(keys, kt)
-            else:
+            elif z3.is_true(pres):
                 # key order: existing keys keep their position, new keys are appended (python dict semantics)
                 keys = self.keys_add(keys, h.sym[1], kt)
                 has = z3.Store(has, kt, True)
-                mp = z3.Store(mp, kt, self.box(v))
+                mp = z3.Store(mp, kt, val)
+            else:
+                keys = z3.If(pres, self.keys_add(keys, h.sym[1], kt), self.keys_remove(keys, kt))
+                has = z3.Store(has, kt, pres)
+                if val is not None:
+                    mp = z3.Store(mp, kt, val)
         return PV.PDict(keys, has, mp)
 
     def keys_add(self, keys, has0, kt):
@@ -467,6 +515,8 @@ class Path:
         """z3 Bool: key (Val) in dict"""
         ck = self.const_key(key)
         if ck is not None and ck in h.over:
+            if isinstance(h.over[ck], Cond):
+                return self.entry_parts(h, ck, h.over[ck])[0]
             return z3.BoolVal(h.over[ck] is not DELETED)
         if h.sym is None:
             if ck is not None:
@@ -475,10 +525,17 @@ class Path:
             return z3.Or([kt == key_of_const(k) for k, v in h.over.items() if v is not DELETED] + [z3.BoolVal(False)])
         kt = self.key_term(key)
         res = z3.Select(h.sym[1], kt)
+        self.domain_fact(h, kt)
         if ck is None:
             for k, v in reversed(list(h.over.items())):
-                res = z3.If(kt == key_of_const(k), z3.BoolVal(v is not DELETED), res)
+                res = z3.If(kt == key_of_const(k), self.entry_parts(h, k, v)[0], res)
         return res
+
+    def domain_fact(self, h, kt):
+        """ground instance of 'every key of this dict lies in its declared key domain'"""
+        dom = h.tag.get("key_domain")
+        if dom and h.sym is not None:
+            self.assume(z3.Implies(z3.Select(h.sym[1], kt), z3.Or([kt == key_of_const(c) for c in dom])))
 
     def key_term(self, key):
         ck = self.const_key(key)
@@ -503,6 +560,9 @@ class Path:
             v = h.over[ck]
             if v is DELETED:
                 raise Unsupported("read of deleted key")
+            if isinstance(v, Cond):
+                pres, val = self.entry_parts(h, ck, v)
+                return VBox(val if val is not None else PV.PNone)
             return v
         if ck is None:
             kt = self.key_term(key)
@@ -517,7 +577,9 @@ class Path:
             res = z3.Select(h.sym[2], kt)
             for k, v in reversed(list(h.over.items())):
                 if v is not DELETED:
-                    res = z3.If(kt == key_of_const(k), self.box(v), res)
+                    val = self.entry_parts(h, k, v)[1]
+                    if val is not None:
+                        res = z3.If(kt == key_of_const(k), val, res)
             return VBox(res)
         if h.sym is None:
             raise Unsupported("dict_get of absent key")
@@ -525,6 +587,8 @@ class Path:
         val = VBox(z3.Select(h.sym[2], kt))
         # if the stored value is itself a container, materialise it once so that aliasing is kept
         t = val.t
+        if self.pure:
+            return val
         if self.entails(PV.is_PDict(t)):
             ref = self.alloc(HDict(sym=(PV.dkeys(t), PV.dhas(t), PV.dmap(t))))
             h.over[ck] = ref
